@@ -79,6 +79,7 @@ var polluters = []struct{ Name, Src string }{
 	{"env-replaced", `_ = 5; return {};`},
 	{"undefined-shadow", `undefined = 1; return {};`},
 	{"throwing-after-pollution", `Object.prototype.polluted = 1; leak = 1; _.props.q = "overwritten"; if (_.props.nested) { _.props.nested.k = "polluted"; } throw new Error("after pollution");`},
+	{"mutate-everything-in-place", `function mut(x) { if (Array.isArray(x)) { for (var i = 0; i < x.length; i++) { if (x[i] !== null && typeof x[i] === 'object') { mut(x[i]); } else { x[i] = 'mutated'; } } x.reverse(); if (x.length > 0) { x.shift(); } x.push('pushed'); } else if (x !== null && typeof x === 'object') { for (var k in x) { if (x[k] !== null && typeof x[k] === 'object') { mut(x[k]); } else { x[k] = 'mutated'; } } x.added = 'mutated'; } } mut(_.bindings); mut(_.props); return {done: true};`},
 	{"emit-then-mutate-emitted", `var m = {id: "e", inner: {v: 1}}; var r = _.out(m); m.inner.v = 2; return _.bindings;`},
 }
 
@@ -92,6 +93,22 @@ func mkBindings() match.Bindings {
 			"arr": []interface{}{"a", "b"},
 		}},
 	}
+}
+
+// bindingsVariant: caller bindings of several shapes (the deep one above; flat
+// with arrays only; arrays of arrays / of objects; Go-typed numbers).
+func bindingsVariant(k int) match.Bindings {
+	switch k % 5 {
+	case 1:
+		return match.Bindings{"queue": []interface{}{"a", "b", "c"}, "owner": "alice", "x": 1.0}
+	case 2:
+		return match.Bindings{"arr": []interface{}{[]interface{}{1.0, 2.0}, []interface{}{3.0}}, "n": 1.0}
+	case 3:
+		return match.Bindings{"arr": []interface{}{map[string]interface{}{"id": 1.0}, "two"}, "x": "s"}
+	case 4:
+		return match.Bindings{"arr": []interface{}{int64(1), int64(2)}, "x": int64(7)}
+	}
+	return mkBindings()
 }
 
 func mkProps() core.StepProps {
@@ -170,7 +187,7 @@ func (e *exec) run(rec *fw.Rec, name string, bs match.Bindings, props core.StepP
 }
 
 func Run(cfg fw.Config, rec *fw.Rec) {
-	rec.Rule = "16 polluting scripts (in-place mutation of _.bindings at depth 1-4, of _.props incl. nested maps and lists, globals with and without var, Object/Array prototype and JSON/Math/Object.keys patches, replaced environment members, pollution followed by a throw) run in sequences of length 1-5 before a probe script that reports everything observable (globals, prototypes, built-ins, environment keys, props, bindings); the probe's report must equal its report in a clean run; a self-probe pollutes and reports leftovers of its own earlier executions; the caller's bindings and props are deep-snapshotted around every execution (also through Spec.Step); 16-64 goroutines run one compiled source concurrently (race detector on); non-trivial = polluter sequence followed by a clean probe; distinct by sequence"
+	rec.Rule = "17 polluting scripts (in-place mutation of _.bindings at depth 1-4, of _.props incl. nested maps and lists, globals with and without var, Object/Array prototype and JSON/Math/Object.keys patches, replaced environment members, pollution followed by a throw) run (on caller bindings of 5 shapes: nested objects, flat with arrays only, arrays of arrays / objects, Go-typed numbers) in sequences of length 1-5 before a probe script that reports everything observable (globals, prototypes, built-ins, environment keys, props, bindings); the probe's report must equal its report in a clean run; a self-probe pollutes and reports leftovers of its own earlier executions; the caller's bindings and props are deep-snapshotted around every execution (also through Spec.Step); 16-64 goroutines run one compiled source concurrently (race detector on); non-trivial = polluter sequence followed by a clean probe; distinct by sequence"
 	rec.Required = []string{"probe_after_polluters_clean", "self_probe_clean", "concurrent_rounds", "step_props_intact", "snapshots_intact"}
 	rec.Assume = []string{"the race detector reports only races that occur in the interleavings produced", "probe observability: what the probe script can enumerate (globals by name, prototypes, built-ins used by the DSL, environment keys, props, bindings)"}
 	e := newExec(rec)
@@ -193,8 +210,8 @@ func Run(cfg fw.Config, rec *fw.Rec) {
 				seq = append(seq, polluters[r.Intn(len(polluters))].Name)
 			}
 		}
-		for _, name := range seq {
-			if _, ok := e.run(rec, name, mkBindings(), mkProps(), seq); !ok {
+		for k, name := range seq {
+			if _, ok := e.run(rec, name, bindingsVariant(i+k), mkProps(), seq); !ok {
 				return
 			}
 		}
